@@ -477,16 +477,17 @@ impl<
             // The first transition is a dummy that we insert, so if we land on
             // it here, treat it as if it doesn't exist.
             return None;
-        } else if index >= self.timestamps().len() - 1 {
+        } else if index >= self.timestamps().len() {
+            // There are no more recorded transitions after the timestamp
+            // given. (Note that we only get here when we're at or past the
+            // *last* recorded transition. The last recorded transition itself
+            // must still be yielded from the table below, since it generally
+            // isn't one of the transitions described by the POSIX TZ string.)
             if let Some(posix_tz) = self.posix_tz() {
                 // Since the POSIX TZ must be consistent with the last
-                // transition, it must be the case that next.timestamp <=
-                // posix_next_tans in all cases. So the transition according to
-                // the POSIX TZ is always correct here.
-                //
-                // What if this returns `None` though? I'm not sure in which
-                // cases that could matter, and I think it might be a violation
-                // of the TZif format if it does.
+                // transition, it must be the case that tzif_last <=
+                // posix_next_trans in all cases. So the transition according
+                // to the POSIX TZ is always correct here.
                 //
                 // In the "previous" case above, this could return `None` even
                 // when there are historical time zone transitions in the case
@@ -496,7 +497,8 @@ impl<
                 // future time zone transitions.
                 return posix_tz.next_transition(ts);
             }
-            self.timestamps().len() - 1
+            // No POSIX TZ string, so there are no known future transitions.
+            return None;
         } else {
             index
         };
